@@ -22,7 +22,9 @@ pub fn def() -> PropDef {
     }
 }
 
-const CLOSED_LEAVES: [&str; 38] = [
+const CLOSED_LEAVES: [&str; 45] = [
+    // multi-byte text (length counts bytes) and numbers that need more than 14 significant digits
+    "\"h\\195\\169llo\"", "\"\\226\\134\\146\"", "0.30000000000000004", "0.3333333333333333", "66.66666666666666", "123456789012345.6", "1e21",
     "nil", "true", "false", "0", "1", "2", "3", "0.5", "0.1", "255", "1e15", "9007199254740993", "1e100", "1e308", "1e-7", "5e-324", "(-0)", "(1/0)", "(-1/0)", "(0/0)",
     "\"\"", "\"a\"", "\"abc\"", "\"10\"", "\" 0x10 \"", "\"1e2\"", "\"inf\"", "\"nan\"", "\"0x\"", "\"1_000\"", "\"-1\"", "\" \"", "\"\\255\"", "\"0x10\"", "{}", "function() end", "\"5\"", "10",
 ];
@@ -291,6 +293,7 @@ pub fn check_expr(expr: &str, avoid_interp_tostring: bool) -> Result<Option<Verd
         for b in bindings {
             let mut any_success = false;
             let mut any_agree = false;
+            let mut all_disagree_somewhere = false;
             let mut seen = vec![];
             for d in [Dialect::Lua51, Dialect::Luau] {
                 let Some(actual) = run_bound(&wrap(expr, false, 2), d, *b) else { continue };
@@ -301,10 +304,14 @@ pub fn check_expr(expr: &str, avoid_interp_tostring: bool) -> Result<Option<Verd
                 let agree = ret.len() == 1 && exp_ret.len() == 1 && (ret[0] == exp_ret[0] || (matches!(value, LuaValue::String(_)) && string_snap_equivalent(&exp_ret[0], &ret[0])));
                 if agree {
                     any_agree = true;
+                } else {
+                    all_disagree_somewhere = true;
                 }
                 seen.push(format!("{:?}: executes to {:?}", d, ret));
             }
-            if any_success && !any_agree {
+            // a folded value must be right under both readings of the language: where Lua 5.1 and
+            // Luau give different results the evaluator has to leave the expression alone
+            if any_success && (!any_agree || all_disagree_somewhere) {
                 return Err(format!("the evaluator says `{}` is {} (Lua literal {}), but with g bound to {:?}: {}", expr, describe(&value), lit, b, seen.join("; ")));
             }
         }
